@@ -14,7 +14,6 @@
 package mc
 
 import (
-	"bytes"
 	"fmt"
 	"hash/fnv"
 	"math/rand"
@@ -29,15 +28,6 @@ import (
 
 	"github.com/buildbarn/bb-remote-execution/pkg/verifsync"
 )
-
-func goid() int64 {
-	var buf [64]byte
-	n := runtime.Stack(buf[:], false)
-	b := buf[len("goroutine "):n]
-	i := bytes.IndexByte(b, ' ')
-	id, _ := strconv.ParseInt(string(b[:i]), 10, 64)
-	return id
-}
 
 const (
 	kindPoint  = -1
